@@ -21,7 +21,7 @@ let () = register "mgspre" (fun () ->
 let () = register "mgsloop" (fun () ->
   let lb = next_nat () in let n = next_nat () in
   let st = next_list (fun () -> let k = next () in let b = next_bool () in (k, b)) in
-  let status k = (try List.assoc (int_of_nat k) st with Not_found -> false) in
+  let status k = (try (if List.assoc (int_of_nat k) st then MOptimal else MOther) with Not_found -> MOther) in
   let (tried, res) = mgs_loop status lb n in
   Printf.printf "T %s | R %s | RANGE %s\n" (s_nats tried)
     (match res with Some k -> string_of_int (int_of_nat k) | None -> "none") (s_nats (mgs_range lb n)))
